@@ -110,6 +110,15 @@ func (p *dmapPath) dm(name string) (olric.DMap, error) {
 	return d, nil
 }
 
+// Destroy destroys the DMap through this path's long-lived handle.
+func (p *dmapPath) Destroy(ctx context.Context, dmn string) error {
+	d, err := p.dm(dmn)
+	if err != nil {
+		return err
+	}
+	return d.Destroy(ctx)
+}
+
 func putOptions(o PutOpts) []olric.PutOption {
 	var opts []olric.PutOption
 	if o.NX {
